@@ -47,6 +47,9 @@ def check(prog: Program, run: Run) -> None:
     bytes_like_accepted(prog, run, "C03.R5")
     from . import c02
     common.run_as(run, "C02.R2", "C03.R6", lambda r: c02._siblings(prog, r))
+    # the integer representations: what the decoder computes for a raw value is the ODX formula
+    # (per bit length, not per byte), i.e. the inverse of what the encoder does
+    common.run_as(run, "C02.R1", "C03.R5", lambda r: c02._formulas(prog, r))
     run.rule("C03.R7", "each part of a COMPU-SCALE is parsed with the data type of the side it "
              "belongs to, so an inverse value has the internal type the encoder needs (shared "
              "with C07.R8)", floor=7)
